@@ -58,6 +58,18 @@ def build_store():
         w.do((1, 4), W.p_activate(u))
         w.do((1, 4), W.p_revoke(u, code))
         uids['SymmetricKey'][st] = u
+    # objects of the kinds WITHOUT a key block whose value has a size a key wrap accepts (16 bytes):
+    # parameter checks that reject the usual fixtures early never get past them
+    from kmip.pie import objects as pobjects
+    for k, obj in (('OpaqueObject', W.pie_opaque(b'\x31' * 16)),
+                   ('Certificate', pobjects.X509Certificate(b'\x32' * 16)),
+                   ('SecretData', W.pie_secret(b'\x33' * 16))):
+        attrs = [] if k == 'OpaqueObject' else [W.attr(AT.CRYPTOGRAPHIC_USAGE_MASK, ALLM)]
+        r = w.do((1, 4), W.p_register(obj, attrs))
+        assert r.items[0].ok(), r.brief()
+        uids[k]['w16'] = r.uid()
+        if k != 'OpaqueObject':
+            w.do((1, 4), W.p_activate(r.uid()))
     return w, uids, kek
 
 
